@@ -280,11 +280,13 @@ def graph_by_some_history(n, edges):
 _CONST_CACHE = {}
 
 
-def source_constants(files):
+def source_constants(files, wide=False):
     """sorted integer constants (>= 2) occurring in comparisons, shifts, `range`/slice bounds, `maxsize=` keywords
-    and assignments to ALL_CAPS names in the given files (paths relative to the package root `cnfgen/`)"""
+    and assignments to ALL_CAPS names in the given files (paths relative to the package root `cnfgen/`).
+    wide=True: also constant-valued assignments to ANY plain name or attribute (class attributes such as
+    `max_table_bits = 12`, `self.limit = 1 << 10`) and constant default values of function parameters"""
     import ast
-    key = tuple(files)
+    key = tuple(files) + (("wide",) if wide else ())
     if key in _CONST_CACHE:
         return _CONST_CACHE[key]
     found = set()
@@ -302,6 +304,16 @@ def source_constants(files):
                 except Exception:
                     pass
 
+    def const_expr(node):
+        """an integer literal or arithmetic over integer literals"""
+        if isinstance(node, ast.Constant):
+            return isinstance(node.value, int) and not isinstance(node.value, bool)
+        if isinstance(node, ast.BinOp):
+            return const_expr(node.left) and const_expr(node.right)
+        if isinstance(node, ast.UnaryOp):
+            return const_expr(node.operand)
+        return False
+
     for rel in files:
         path = os.path.join(REPO, "cnfgen", rel)
         try:
@@ -318,16 +330,202 @@ def source_constants(files):
             elif isinstance(n, ast.Call) and isinstance(n.func, ast.Attribute) and n.func.attr in ("read", "readlines"):
                 for a in n.args:
                     ints(a)
+            elif wide and isinstance(n, (ast.Assign, ast.AnnAssign)) and n.value is not None and const_expr(n.value):
+                ints(n.value)
+            elif wide and isinstance(n, (ast.FunctionDef, ast.Lambda)):
+                for d in list(n.args.defaults) + [d for d in n.args.kw_defaults if d is not None]:
+                    if const_expr(d):
+                        ints(d)
     _CONST_CACHE[key] = sorted(found)
     return _CONST_CACHE[key]
 
 
-def probe_sizes(files, lo, hi, powers=True):
+def probe_sizes(files, lo, hi, powers=True, wide=False):
     """values around the source constants (see above) inside [lo, hi], ascending, without duplicates"""
     out = set()
-    for c in source_constants(files):
+    for c in source_constants(files, wide=wide):
         cand = [c - 1, c, c + 1]
         if powers and c <= 40:
             cand += [(1 << c) - 1, 1 << c, (1 << c) + 1]
         out.update(v for v in cand if lo <= v <= hi)
     return sorted(out)
+
+
+# ---------------------------------------------------------------------------------------------------------------
+# graph arguments in every legal form.  A family must see the same graph whether the caller built a cnfgen Graph
+# edge by edge in any order / orientation, repeated an edge, removed and re-added one, or handed over a networkx
+# graph whose nodes were inserted in an order that is not the sorted one ("If the vertices in the original graph
+# have some kind of order, the order is preserved": vertex i of the formula is the i-th smallest node).
+
+def _crc(*parts):
+    import zlib
+    return zlib.crc32(repr(parts).encode())
+
+
+GRAPH_ROUTES = 10
+
+
+def graph_argument(n, edges, salt=0, nx_ok=True, route=None):
+    """the simple graph (n, edges) as a family argument, by one of GRAPH_ROUTES legal routes chosen from the data
+    and `salt` (so that the same graph takes different routes in different cases, reproducibly):
+    0-3 the histories of graph_by_some_history; 4 every edge added as (larger, smaller); 5 edges added, then some of
+    them added AGAIN in either orientation; 6 some edges removed and re-added the other way round; 7 a networkx graph
+    with non-contiguous integer labels, nodes inserted in scrambled order, edges in arbitrary orientation and order,
+    one repeated; 8 a networkx graph with string labels whose nodes appear in the order the edges mention them;
+    9 Graph.from_networkx of a route-7 object, called by the user."""
+    from cnfgen.graphs import Graph
+    edges = [tuple(e) for e in edges]
+    key = _crc(n, sorted(map(sorted, edges)), salt)
+    if route is None:
+        route = key % GRAPH_ROUTES
+    rng = Rng(key)
+    if route < 4 or n == 0:
+        return graph_by_some_history(n, edges)
+    if route in (4, 5, 6):
+        G = Graph(n)
+        order = list(edges)
+        rng.shuffle(order)
+        for u, v in order:
+            if route == 4:
+                G.add_edge(max(u, v), min(u, v))
+            else:
+                G.add_edge(u, v)
+        if route == 5:
+            for u, v in order:
+                r = rng.random()
+                if r < .35:
+                    G.add_edge(max(u, v), min(u, v))
+                elif r < .6:
+                    G.add_edge(min(u, v), max(u, v))
+                elif r < .7:
+                    G.add_edge(u, v)
+                    G.add_edge(v, u)
+        if route == 6:
+            for u, v in order:
+                if rng.random() < .5:
+                    G.remove_edge(*((u, v) if rng.random() < .5 else (v, u)))
+                    G.add_edge(max(u, v), min(u, v))
+                    if rng.random() < .5:
+                        G.add_edge(min(u, v), max(u, v))
+        return G
+    import networkx
+    if route == 8:
+        lab = {i: "v{:04d}".format(3 * i + 1) for i in range(1, n + 1)}
+    else:
+        lab, x = {}, rng.randint(-5, 5)
+        for i in range(1, n + 1):
+            lab[i] = x
+            x += rng.randint(1, 4)
+    H = networkx.Graph(name="a networkx graph")
+    order = list(edges)
+    rng.shuffle(order)
+    if route != 8:
+        nodes = list(range(1, n + 1))
+        rng.shuffle(nodes)
+        if nodes == sorted(nodes) and n >= 2:
+            nodes.reverse()
+        for i in nodes:
+            H.add_node(lab[i])
+    for u, v in order:
+        if rng.random() < .5:
+            u, v = v, u
+        H.add_edge(lab[u], lab[v])
+    if order:
+        u, v = order[0]
+        H.add_edge(lab[max(u, v)], lab[min(u, v)])
+    for i in range(n, 0, -1):              # route 8: the vertices no edge mentions, largest first
+        H.add_node(lab[i])
+    if route == 9 or not nx_ok:
+        return Graph.from_networkx(H)
+    return H
+
+
+# ---------------------------------------------------------------------------------------------------------------
+# a second interpreter mode.  The same cases (suite, info) of a harness module are rebuilt and evaluated by a CHILD
+# interpreter started with other flags (`-O`, `-OO`: assert statements and `if __debug__` blocks are not executed,
+# docstrings are dropped); its answers are compared with the model like any other answer, and the child runs the
+# module's own property oracle on what it built.  One child per batch, started when the first answer is needed.
+
+_CHILD = r"""
+import sys, json, importlib
+from harness import common
+mod = importlib.import_module(sys.argv[1])
+items = json.load(sys.stdin)
+out = []
+for suite, info in items:
+    try:
+        c = mod.build(suite, info)
+        a = common.run_impl(c)
+        o = common.run_oracle(c)
+    except BaseException as e:
+        a, o = "CHILD-ERROR " + type(e).__name__, None
+    out.append([a, o])
+sys.stdout.write("\n@@RESULT@@" + json.dumps({"optimize": sys.flags.optimize, "out": out}, default=str))
+"""
+
+
+class ModeBatch:
+    def __init__(self, module_name, flags, timeout=600):
+        self.module_name, self.flags, self.timeout = module_name, list(flags), timeout
+        self.items, self.results = [], None
+
+    def add(self, suite, info):
+        self.items.append([suite, info])
+        return len(self.items) - 1
+
+    def _run(self):
+        env = dict(os.environ)
+        env["PYTHONPATH"] = os.pathsep.join([REPO, VERIF] + [p for p in env.get("PYTHONPATH", "").split(os.pathsep) if p])
+        env.pop("PYTHONOPTIMIZE", None)
+        p = subprocess.run([sys.executable] + self.flags + ["-c", _CHILD, self.module_name],
+                           input=json.dumps(self.items, default=str).encode(), stdout=subprocess.PIPE,
+                           stderr=subprocess.PIPE, timeout=self.timeout, env=env, cwd=VERIF)
+        text = p.stdout.decode(errors="replace")
+        if p.returncode != 0 or "@@RESULT@@" not in text:
+            msg = "CHILD-FAILED rc={} {}".format(p.returncode, p.stderr.decode(errors="replace")[-300:].replace("\n", " | "))
+            self.results = [[msg, None] for _ in self.items]
+            return
+        data = json.loads(text.split("@@RESULT@@", 1)[1])
+        self.results = data["out"]
+
+    def get(self, idx):
+        if self.results is None:
+            self._run()
+        return self.results[idx]
+
+
+def mode_case(batch, inner_build, mode_suite, suite, info):
+    """the case (suite, info) of `inner_build`, answered by the child interpreter of `batch`"""
+    inner = inner_build(suite, info)
+    idx = batch.add(suite, info)
+    tag = "".join(batch.flags) or "default"
+    return Case(mode_suite, inner.req, lambda: batch.get(idx)[0], lambda: batch.get(idx)[1],
+                cls="{}:{}:{}".format(tag, suite, inner.cls), nontrivial=inner.nontrivial,
+                info={"suite": suite, "info": info, "flags": list(batch.flags)})
+
+
+def mode_build(module_name, inner_build, mode_suite, info):
+    """`build` of a mode suite (replay): a batch of one"""
+    batch = ModeBatch(module_name, info["flags"])
+    return mode_case(batch, inner_build, mode_suite, info["suite"], info["info"])
+
+
+def mode_cases(module_name, inner_build, mode_suite, built, rng, tier, first=2, extra=3):
+    """mode cases for a stratified sample of the cases already built by a module: per (suite, input class) the first
+    `first` and `extra` random others (x4 in the thorough tier); `-O` in both tiers, `-OO` too in the thorough one"""
+    groups = {}
+    for c in built:
+        if c.suite == mode_suite or c.info is None:
+            continue
+        groups.setdefault((c.suite, c.cls), []).append(c)
+    if tier == "thorough":
+        first, extra = 4 * first, 4 * extra
+    chosen = []
+    for key in groups:
+        g = groups[key]
+        rest = g[first:]
+        chosen += g[:first] + (rest if len(rest) <= extra else rng.sample(rest, extra))
+    for flags in (["-O"], ["-OO"]) if tier == "thorough" else (["-O"],):
+        batch = ModeBatch(module_name, flags)
+        for c in chosen:
+            yield mode_case(batch, inner_build, mode_suite, c.suite, c.info)
